@@ -9,6 +9,9 @@
  * select (virtual wait accounting), getnameinfo (AF_UNIX peers have no numeric host).
  *
  * ops (one observation line each; see Driver/C20.lean for the model side):
+ *   boot <plain|busy>                 (first op, optional) start-up variant: busy = the RFB port is occupied,
+ *                                     rfbInitSockets leaves early; the HTTP server comes up all the same
+ *   hook <accept|refuse>              what the application's newClientHook answers (proxy hand-over)
  *   dir <n> <listener 4|6>            sandbox www directory whose path is exactly n bytes long
  *   mkdir <hexrel> | file <hexrel> <hexcontent>     populate the sandbox (relative to www)
  *   cfg <proxy 0|1> <port>            httpEnableProxyConnect, screen->port
@@ -107,6 +110,17 @@ ssize_t read(int fd, void *buf, size_t count) {
   return real(fd, buf, count);
 }
 
+/* closes of descriptors that are not open (a second close of the same socket) while a request is served */
+static int badclose = 0, count_closes = 0;
+int close(int fd) {
+  static int (*real)(int);
+  int r;
+  if (!real) real = (int (*)(int))dlsym(RTLD_NEXT, "close");
+  r = real(fd);
+  if (r < 0 && errno == EBADF && count_closes) badclose++;
+  return r;
+}
+
 static long long vwait_us = 0;
 static int virtual_wsel = 0, vsel_count = 0, vsel_fd = -1;
 int select(int nfds, fd_set *r, fd_set *w, fd_set *e, struct timeval *tv) {
@@ -198,7 +212,11 @@ static int make_www(size_t n) {
 /* ---------------------------------------------------------------- RFB witness */
 static vh_conn wit; static int wit_ok = 0;
 static int newclients = 0;
-static enum rfbNewClientAction on_new_client(rfbClientPtr cl) { (void)cl; newclients++; return RFB_CLIENT_ACCEPT; }
+static int refuse_clients = 0;
+static enum rfbNewClientAction on_new_client(rfbClientPtr cl) {
+  (void)cl; newclients++;
+  return refuse_clients ? RFB_CLIENT_REFUSE : RFB_CLIENT_ACCEPT;
+}
 
 static int witness_served(void) {
   unsigned char req[10] = { 3, 0, 0, 0, 0, 0, 0, 16, 0, 8 };
@@ -279,38 +297,77 @@ static void on_alarm(int sig) {
 }
 static unsigned char reqbuf[1 << 18];
 
+/* Start-up.  mode 0: the shared vh_screen (no RFB listeners at all, rfbInitServer runs to its end).
+   mode 1 ("boot busy"): the application asks for an RFB port that another socket already occupies, so
+   rfbInitSockets() leaves through its "cannot listen" return; the HTTP server is brought up all the same
+   (as rfbHttpInitSockets would).  The harness itself never touches the disposition of SIGPIPE: that the
+   process survives a peer that goes away is the library's job (screen->ignoreSIGPIPE). */
+static int booted = 0, busy_sock = -1;
+static int boot(int mode) {
+  if (booted) return -1;
+  booted = 1;
+  setenv("USER", "vuser", 1);
+  if (mode == 0) scr = vh_screen(16, 8, 4);
+  else {
+    int argc = 1; char *argv[] = { (char *)"verif", NULL };
+    struct sockaddr_in a; socklen_t al = sizeof a; int port = 0;
+    busy_sock = socket(AF_INET, SOCK_STREAM, 0);
+    memset(&a, 0, sizeof a); a.sin_family = AF_INET; a.sin_addr.s_addr = htonl(INADDR_LOOPBACK);
+    if (busy_sock >= 0 && bind(busy_sock, (struct sockaddr *)&a, sizeof a) == 0 && listen(busy_sock, 1) == 0 &&
+        getsockname(busy_sock, (struct sockaddr *)&a, &al) == 0) port = ntohs(a.sin_port);
+    if (port <= 0) { fprintf(stderr, "boot busy: no loopback TCP socket available\n"); return -1; }
+    if (!getenv("VH_VERBOSE")) { rfbLog = vh_quiet_log; rfbErr = vh_quiet_log; }
+    scr = rfbGetScreen(&argc, argv, 16, 8, 8, 3, 4);
+    if (!scr) return -1;
+    scr->frameBuffer = (char *)calloc(16 * 8, 4);
+    scr->port = port; scr->ipv6port = 0; scr->autoPort = FALSE; scr->httpPort = 0; scr->http6Port = 0;
+    scr->httpDir = NULL; scr->deferUpdateTime = 0; scr->maxClientWait = 100;
+    rfbInitServer(scr);
+    if (scr->listenSock != RFB_INVALID_SOCKET) { fprintf(stderr, "boot busy: the RFB listener came up\n"); return -1; }
+  }
+  if (!scr) return -1;
+  scr->desktopName = "verif desk";
+  strcpy(scr->thisHost, "vhost");
+  scr->newClientHook = on_new_client;
+  snprintf(lpath4, sizeof lpath4, "%s/l4", base); snprintf(lpath6, sizeof lpath6, "%s/l6", base);
+  lsock4 = listen_unix(lpath4); lsock6 = listen_unix(lpath6);
+  if (lsock4 < 0 || lsock6 < 0) { fprintf(stderr, "cannot listen in %s\n", base); return -1; }
+  if (vh_connect_pre(scr, &wit, "RFB 003.008\n", 12) == 0 && vh_handshake_none(scr, &wit, 1) == 0) wit_ok = 1;
+  newclients = 0;
+  fd_baseline = count_fds();
+  return 0;
+}
+
 int main(void) {
   char *line, *tok[8];
   const char *root = getenv("VERIF_C20_TMP");
-  signal(SIGPIPE, SIG_IGN);
   signal(SIGALRM, on_alarm);
   if (!root || !*root) root = "/tmp";
   snprintf(base, sizeof base, "%s/verif-c20-%08d", root, (int)getpid());
   if (mkdirs(base) < 0) { fprintf(stderr, "cannot create %s\n", base); return 2; }
   atexit(cleanup);
   { char s[400]; snprintf(s, sizeof s, "%s/secret", base); put_file(s, (const unsigned char *)"TOPSECRET\n", 10); }
-  setenv("USER", "vuser", 1);
-  scr = vh_screen(16, 8, 4);
-  if (!scr) { fprintf(stderr, "no screen\n"); return 2; }
-  scr->desktopName = "verif desk";
-  strcpy(scr->thisHost, "vhost");
-  scr->newClientHook = on_new_client;
-  snprintf(lpath4, sizeof lpath4, "%s/l4", base); snprintf(lpath6, sizeof lpath6, "%s/l6", base);
-  lsock4 = listen_unix(lpath4); lsock6 = listen_unix(lpath6);
-  if (lsock4 < 0 || lsock6 < 0) { fprintf(stderr, "cannot listen in %s\n", base); return 2; }
-  if (vh_connect_pre(scr, &wit, "RFB 003.008\n", 12) == 0 && vh_handshake_none(scr, &wit, 1) == 0) wit_ok = 1;
-  newclients = 0;
-  fd_baseline = count_fds();
 
   while ((line = vh_readline())) {
     int n = vh_split(line, tok, 8);
     if (n == 0 || tok[0][0] == '#') continue;
-    if (!strcmp(tok[0], "dir") && n == 3) {
+    if (!strcmp(tok[0], "boot") && n == 2) {
+      if (boot(!strcmp(tok[1], "busy")) < 0) { fprintf(stderr, "boot failed\n"); return 2; }
+      puts("ok");
+      goto next;
+    }
+    if (!booted && boot(0) < 0) { fprintf(stderr, "no screen\n"); return 2; }
+    if (!strcmp(tok[0], "hook") && n == 2) {
+      refuse_clients = !strcmp(tok[1], "refuse");
+      puts("ok");
+    } else if (!strcmp(tok[0], "dir") && n == 3) {
       if (scr->httpDir || make_www((size_t)atol(tok[1])) < 0) { puts("bad-op"); goto next; }
       use6 = atoi(tok[2]) == 6;
       scr->httpDir = www;
       scr->httpListenSock = lsock4; scr->httpListen6Sock = lsock6;
-      puts("ok");
+      { /* the HTTP server accepts from now on: is the process protected against SIGPIPE? */
+        struct sigaction sa; sigaction(SIGPIPE, NULL, &sa);
+        printf("ok sigpipe=%s\n", sa.sa_handler == SIG_IGN ? "ign" : sa.sa_handler == SIG_DFL ? "dfl" : "handler"); }
     } else if (!strcmp(tok[0], "mkdir") && n == 2 && scr->httpDir) {
       char p[8192]; long k = vh_unhex(tok[1], reqbuf, 2048);
       if (k <= 0) { puts("bad-op"); goto next; }
@@ -390,14 +447,16 @@ int main(void) {
          writability is virtual, so the call comes back and the wait shows up in `wait=`; anything that
          still does not come back is ended by the watchdog */
       virtual_wsel = 1; vsel_fd = scr->httpSock; vsel_count = 0;
+      badclose = 0; count_closes = 1;
       alarm(WATCHDOG_S);
       rfbProcessEvents(scr, 0);
       alarm(0);
       virtual_wsel = 0; vsel_fd = -1;
       logging = 0; nplan = iplan = 0; inject_reset = 0;
       for (i = 0; i < 2; i++) rfbProcessEvents(scr, 0);
+      count_closes = 0;
       gone = full ? 1 : http_drain();
-      handed = newclients > nc0;
+      handed = newclients > nc0 && !refuse_clients;
       print_paths();
       if (full) printf(" resp=- len=0 hash=0 bhash=0 par=-");
       else {
@@ -430,7 +489,7 @@ int main(void) {
         for (i = 0; i < 3; i++) rfbProcessEvents(scr, 0);
         printf(" new=%s", scr->httpSock == RFB_INVALID_SOCKET ? "closed" : "open");
       } else if (hc >= 0 && (gone || handed)) { close(hc); hc = -1; for (i = 0; i < 3; i++) rfbProcessEvents(scr, 0); }
-      printf(" leak=%d", fd_leak());
+      printf(" leak=%d badclose=%d", fd_leak(), badclose);
       printf(" rfb=%s\n", witness_served() ? "ok" : "dead");
     } else if (!strcmp(tok[0], "slowreq") && n == 2 && scr->httpDir) {
       /* a peer that sends a request and never reads the answer; the server's send buffer is minimal.
